@@ -179,13 +179,33 @@ pub fn run(a: &Args) {
         let v = gen::gen_val(&mut r, &t, 6);
         check_frame(&mut o, &t, &v, "typed_value", true);
     }
+    // frame sequences: a frame with 2, 3 overhead bytes (zero-free runs of 254.. bytes) followed
+    // by a short one, and between two short ones
+    for len in [253usize, 254, 255, 300, 507, 508, 509, 762] {
+        let long = msg_val(&vec![0x5Au8; len]);
+        let short = msg_val(&[7, 0, 9]);
+        for items in [vec![long.clone(), short.clone()], vec![short.clone(), long.clone(), short.clone()], vec![long.clone(), long.clone()]] {
+            for drop in [false, true] {
+                check_sequence(&mut o, &mut r, &items, drop);
+            }
+        }
+    }
+    for (t, v) in gen::block_write_boundary_vals(&mut r, false).into_iter().step_by(3) {
+        let short = msg_val(&[1, 2]);
+        check_sequence(&mut o, &mut r, &[(t, v), short], false);
+    }
     // frame sequences
     let n = if a.thorough { 6000 } else { 400 };
     for _ in 0..n {
         let k = r.range(1, 6) as usize;
         let items: Vec<(Ty, Val)> = (0..k)
             .map(|_| {
-                if r.chance(1, 2) {
+                if r.chance(1, 5) {
+                    // a long message: the frame carries more than one overhead byte
+                    let len = r.range(250, 520) as usize;
+                    let msg: Vec<u8> = (0..len).map(|_| if r.chance(1, 300) { 0 } else { r.range(1, 255) as u8 }).collect();
+                    msg_val(&msg)
+                } else if r.chance(1, 2) {
                     let len = r.below(12) as usize;
                     let msg: Vec<u8> = (0..len).map(|_| if r.chance(1, 4) { 0 } else { r.range(1, 255) as u8 }).collect();
                     msg_val(&msg)
@@ -199,5 +219,5 @@ pub fn run(a: &Args) {
         let drop = r.chance(1, 2);
         check_sequence(&mut o, &mut r, &items, drop);
     }
-    o.finish(&a.summary, "messages as u8-tuples whose plain encoding is the message itself: exhaustive over {00,01,02,FF} up to length 6 (8 in thorough), run lengths 253..255/507..509/761..763 with leading, interior and trailing zeros, str/bytes payloads whose block writes end around each boundary, random messages, random typed values; three storages; frame sequences of 1..6 frames with and without the last sentinel decoded frame by frame; distinct = distinct plain encoding / stream, non-trivial = non-empty");
+    o.finish(&a.summary, "messages as u8-tuples whose plain encoding is the message itself: exhaustive over {00,01,02,FF} up to length 6 (8 in thorough), run lengths 253..255/507..509/761..763 with leading, interior and trailing zeros, str/bytes payloads whose block writes end around each boundary, random messages, random typed values; three storages; frame sequences of 1..6 frames (short frames, and long ones carrying several overhead bytes, in every position) with and without the last sentinel decoded frame by frame; distinct = distinct plain encoding / stream, non-trivial = non-empty");
 }
